@@ -241,7 +241,7 @@ func TestC18(t *testing.T) {
 	if shard == 0 {
 		c.rec.F.Exhaustive = append(c.rec.F.Exhaustive, fmt.Sprintf("52 name functions x integers in [-8, max+8] x %d tags", len(tags)))
 	}
-	c.rapidStage("rapid", pick(20000, 1000000), func(rt *rapid.T) {
+	c.rapidStage("rapid", pick(80000, 1000000), func(rt *rapid.T) {
 		a := rapid.SampledFrom(nameAPIs).Draw(rt, "function")
 		v := rapid.IntRange(-3, a.nvalues+3).Draw(rt, "value")
 		if rapid.IntRange(0, 4).Draw(rt, "wide") == 0 {
